@@ -92,7 +92,9 @@ func (f *Dox) Call(s *slip.Scope, args slip.List, depth int) (result slip.Object
 			}
 		}
 		for _, sb := range steps {
-			ns.UnsafeLet(sb.sym, ns.Eval(sb.step, d2))
+			if sb.hasStep {
+				ns.UnsafeLet(sb.sym, ns.Eval(sb.step, d2))
+			}
 		}
 	}
 	return
